@@ -99,6 +99,12 @@ class CodeGenerator:
             cval = self.context.eval_const(ival)
             cval = self.context.pack_int(cval, bits=typ.bits, signed=False)
             return cval
+        elif self.context.equal_types(typ, "bool"):
+            # Booleans are stored as integers:
+            cval = self.context.eval_const(ival)
+            return self.context.pack_int(int(bool(cval)))
+        else:  # pragma: no cover
+            raise NotImplementedError(str(typ))
 
     def gen_globals(self, module):
         """Generate global variables and modules"""
